@@ -421,6 +421,9 @@ def c11_jobs(tier, seed):
     # word-level kernels and m4ri_word_to_str (documented buffer size) under the sanitizers
     jobs.append(TraceJob(ASAN, 'kernels', shards=2 if q else 4, args=['--cases', 40 if q else 300], label='kernels@asan', timeout=3400))
     jobs.append(TraceJob(SMALL, 'baddims', shards=1 if q else 4, args=['--cases', 300 if q else 3000, '--extra', 'views'], label='baddims-views@' + SMALL, timeout=3400))
+    # very large sparse operands: the automatically chosen parameters at their caps (shift counts, table sizes) under the sanitizers
+    jobs.append(TraceJob(ASAN, 'inv', shards=1, args=['--cases', 1, '--extra', 'huge,nosweep'], label='inv-huge@asan', timeout=3400))
+    jobs.append(TraceJob(ASAN, 'elim', shards=4, args=['--cases', 1, '--extra', 'huge,nosweep'], label='elim-huge@asan', timeout=3400))
     # the multi-core front ends are checked wrappers too (OpenMP build only)
     jobs.append(TraceJob('small_sse_cache_omp', 'baddims', shards=1 if q else 2, args=['--cases', 300 if q else 2000], label='baddims@small_sse_cache_omp', timeout=3400, env={'OMP_NUM_THREADS': '3'}))
     for fam, n in ALL_FAMS:   # leak accounting (exact without the allocator caches)
